@@ -10,4 +10,5 @@ INVARIANT ImgDefined
 INVARIANT UnionLaw
 INVARIANT SerConsistent
 INVARIANT RoundTripLaw
+INVARIANT DispatchMatchesKinds
 CHECK_DEADLOCK FALSE
